@@ -53,7 +53,11 @@ class RGen(minif.BodyGen):
         if kind < 0.6 and r.random() < 0.6:      # the tested element is (re)written first in the body
             rhs = str(r.randint(0, 2)) if r.random() < 0.5 else f"{a}({k}) - 1"
             out.append(f"{ind}  {a}({k}) = {rhs}")
-        out += self.block(live, r.randint(1, 2), ind + "  ", depth + 1)
+        saved, self.p_while = self.p_while, 0.0      # no nested DO WHILE: an inner `w = k` reset
+        try:                                          # would make the outer loop non-terminating
+            out += self.block(live, r.randint(1, 2), ind + "  ", depth + 1)
+        finally:
+            self.p_while = saved
         out.append(f"{ind}  w = w - 1")
         out.append(f"{ind}enddo")
         return out
